@@ -466,6 +466,7 @@ def run(rep):
     names = hostile_names(random.Random(rep.seed + 5), 160)
     j = 0
     n = 700 if quick else 40000
+    rep.share(0.4)
     k = 0
     while k < n and not rep.out_of_time():
         if k % 100 == 0:
@@ -492,6 +493,7 @@ def run(rep):
         k += 1
     # HR fragment
     nh = 700 if quick else 40000
+    rep.share(0.7)
     k = 0
     while k < nh and not rep.out_of_time():
         if rep.only and rep.only != 'hr':
@@ -508,6 +510,7 @@ def run(rep):
         j += 1
         k += 1
     ns = 300 if quick else 20000
+    rep.share(1.0)
     plain = simple_names() + ['p_%d' % i for i in range(10)]
     for k in range(ns):
         if rep.out_of_time() or (rep.only and rep.only != 'script'):
